@@ -23,7 +23,18 @@
 (*     than the mantissa of the format's float companion): every adaptor   *)
 (*     variant at depth 1 over from_iter of sources {2,4}, i32 stereo and  *)
 (*     i64 mono (SortsW).                                                  *)
+(*   extreme delay counts: delay(usize::MAX - m) (`delaymax`) alone, under  *)
+(*     and over delay(0..2), and stacked on itself (TDelayMax, i16 stereo). *)
 (* Every owned source occurs at most once in a term (Rust ownership).      *)
+(*                                                                         *)
+(* STATIC DISPATCH (Signals!RawSrcs): the model of a term does not depend  *)
+(* on how its nesting is typed, so nothing more is explored; but for the   *)
+(* sorts the harness builds concretely typed stacks for (StMax) every      *)
+(* scenario is ALSO emitted as stimuli with cfg.st = 1 / 2: the receiver   *)
+(* chain unboxed, every adaptor method called on the concrete type of the  *)
+(* level below.  The depth-2 scenarios contain every ordered pair          *)
+(* (method, receiver adaptor) and the depth-1 ones every (method, source   *)
+(* type) -- NonVacuous asserts it.                                         *)
 (***************************************************************************)
 EXTENDS Signals, Json, IOUtils, SequencesExt
 
@@ -46,6 +57,10 @@ Sorts1 == { << "i16", 2 >>, << "u8", 1 >>, << "f64", 2 >> }
 Sorts2 == IF Quick THEN { << "i16", 2, "core" >> }
           ELSE { << "i16", 2, "coreX" >>, << "u8", 1, "core" >>, << "f64", 2, "core" >> }
 SortsW == { << "i32", 2 >>, << "i64", 1 >> }
+\* deepest statically typed receiver chain the harness builds per sort (hx_signal: Sort::ST_MAX)
+StMax(f, ch) == IF (f = "i16" /\ ch = 2) \/ (f = "f64" /\ ch = 1) THEN 2 ELSE 0
+\* (opaque sources have no model: their stimuli come from the harness generator)
+LeafSrcM == LeafSrc \ {"opq"}
 
 ---------------------------------------------------------------------------
 (* parameter and data tables, per sample format *)
@@ -83,10 +98,10 @@ Leaf0s(f, ch) == {[k |-> "eq"], [k |-> "gen", at |-> f, c |-> GenC(f, ch)], [k |
 \* lv = "rich": every leaf kind over every source; "pair": the operands of depth-1 combiners (quick
 \* keeps every from_iter leaf, two interleaved and two borrowed ones); "core": leaves below depth 1
 Leaves(f, ch, lv) ==
-  CASE lv = "rich" -> {[k |-> kk, j |-> j] : kk \in LeafSrc, j \in 1..NS} \cup Leaf0s(f, ch)
+  CASE lv = "rich" -> {[k |-> kk, j |-> j] : kk \in LeafSrcM, j \in 1..NS} \cup Leaf0s(f, ch)
     [] lv = "pair" -> IF Quick THEN {Src(j) : j \in 1..NS} \cup {[k |-> "srcs", j |-> j] : j \in {2, 4}}
                                     \cup {[k |-> "byref", j |-> j] : j \in {1, 3}} \cup Leaf0s(f, ch)
-                      ELSE {[k |-> kk, j |-> j] : kk \in LeafSrc, j \in 1..NS} \cup Leaf0s(f, ch)
+                      ELSE {[k |-> kk, j |-> j] : kk \in LeafSrcM, j \in 1..NS} \cup Leaf0s(f, ch)
     [] lv = "core"  -> {Src(j) : j \in {2, 4}}
     [] lv = "coreX" -> {Src(j) : j \in {1, 3, 4}}
 
@@ -121,6 +136,22 @@ T1Core(f, ch, lv) == Leaves(f, ch, lv)
                      \cup Build(f, ch, FALSE, LAMBDA g : Leaves(g, ch, lv), LAMBDA g : Leaves(g, ch, lv))
 T1Wide(f, ch) == Leaves(f, ch, "core")
                  \cup Build(f, ch, TRUE, LAMBDA g : Leaves(g, ch, "core"), LAMBDA g : Leaves(g, ch, "core"))
+\* a combiner called on a combiner (the core leaves are two sources: the third operand is a generator)
+T2BB(f, ch) ==
+  LET inner == {t \in T1Core(f, ch, "core") : t.k \in Binary}
+      G(g) == [k |-> "gen", at |-> g, c |-> GenC(g, ch)]
+  IN {[k |-> "zipmap", f |-> "interleave", a |-> a, b |-> G(f)] : a \in inner}
+     \cup {[k |-> "add", a |-> a, b |-> G(SignedOf(f))] : a \in inner}
+     \cup {[k |-> "mul", a |-> a, b |-> G(FloatOf(f))] : a \in inner}
+\* delay(usize::MAX - m): alone, below and above a small delay, stacked on itself
+DM(m, a) == [k |-> "delaymax", m |-> m, a |-> a]
+DL(d, a) == [k |-> "delay", n |-> d, a |-> a]
+TDelayMax ==
+  LET L == {Src(2), Src(4), [k |-> "byref", j |-> 3]} IN
+  {DM(m, a) : m \in {0, 1}, a \in L}
+  \cup {DL(d, DM(m, a)) : d \in {0, 1, 2}, m \in {0, 1}, a \in L}
+  \cup {DM(m, DL(d, a)) : d \in {0, 1, 2}, m \in {0, 1}, a \in L}
+  \cup {DM(m, DM(m2, a)) : m \in {0, 1}, m2 \in {0, 1}, a \in L}
 T2(f, ch, lv) == {t \in Build(f, ch, FALSE, LAMBDA g : T1Core(g, ch, lv), LAMBDA g : T1Core(g, ch, lv)) : Depth(t) = 2}
 
 \* the sources of a scenario: the kind and format of source j are those of the leaf using it
@@ -131,12 +162,15 @@ SrcsFor(t, f, ch) ==
        THEN LET x == CHOOSE x \in info : x[1] = j
             IN [fmt |-> x[3], kind |-> IF x[2] = "srcs" THEN "samples" ELSE "frames", xs |-> SrcData(j, x[2], x[3], ch)]
        ELSE [fmt |-> f, kind |-> "frames", xs |-> << >>]]   \* not used by this term
-Scen(t, so) == [ch |-> so[2], fmt |-> so[1], srcs |-> SrcsFor(t, so[1], so[2]), term |-> t]
+\* (st = depth of the statically typed receiver chain; 0 in every scenario: the model does not depend
+\* on it, Execs emits the st > 0 variants)
+Scen(t, so) == [ch |-> so[2], fmt |-> so[1], srcs |-> SrcsFor(t, so[1], so[2]), st |-> 0, term |-> t]
 \* (an argument keeps TLC from evaluating these big sets eagerly and more than once)
 Scenarios(tier) ==
   UNION {{Scen(t, so) : t \in T1Rich(so[1], so[2])} : so \in Sorts1}
   \cup UNION {{Scen(t, so) : t \in T2(so[1], so[2], so[3])} : so \in Sorts2}
   \cup UNION {{Scen(t, so) : t \in T1Wide(so[1], so[2])} : so \in SortsW}
+  \cup {Scen(t, << "i16", 2 >>) : t \in TDelayMax \cup T2BB("i16", 2)}
 
 ---------------------------------------------------------------------------
 (* the state machine: the public calls of Signal and of the iterator adaptors *)
@@ -253,8 +287,8 @@ SubExh(t, s, m) ==
        [] t.k \in Binary -> /\ SubExh(t.a, s.a, m) /\ SubExh(t.b, s.b, m)
                             /\ Exh(t, s, pool) = (Exh(t.a, s.a, pool) \/ Exh(t.b, s.b, pool))
                             /\ ExhDen(X, t, m) = (ExhDen(X, t.a, m) \/ ExhDen(X, t.b, m))
-       [] t.k = "delay"  -> /\ SubExh(t.a, s.a, MaxI(0, m - t.n))
-                            /\ (m < t.n => ~Exh(t, s, pool))
+       [] IsDelay(t)     -> /\ SubExh(t.a, s.a, MaxI(0, m - DN(t)))
+                            /\ (m < DN(t) => ~Exh(t, s, pool))
        [] OTHER          -> SubExh(t.a, s.a, m)
 ExhExact ==
   /\ mode.m # "dropped" => SubExh(T, ns, n)
@@ -323,7 +357,7 @@ RECURSIVE KindsOf(_)
 KindsOf(t) == {t.k} \cup (IF t.k \in LeafSrc \cup Leaf0 THEN {}
                           ELSE IF t.k \in Binary THEN KindsOf(t.a) \cup KindsOf(t.b) ELSE KindsOf(t.a))
 NonVacuous(S) ==
-  /\ \A so \in Sorts1 : \A k \in LeafSrc \cup Leaf0 \cup Unary \cup Binary :
+  /\ \A so \in Sorts1 : \A k \in LeafSrcM \cup Leaf0 \cup Unary \cup Binary :
        \E s \in S : s.fmt = so[1] /\ s.ch = so[2] /\ s.term.k = k
   /\ \A k \in Unary \cup Binary : \E s \in S : Depth(s.term) = 2 /\ k \in KindsOf(s.term.a)
   /\ \A so \in SortsW : \A k \in Unary \cup Binary : \E s \in S : s.fmt = so[1] /\ s.ch = so[2] /\ s.term.k = k
@@ -331,6 +365,18 @@ NonVacuous(S) ==
   /\ \E s \in S : ByRefsOf(s.term) # {} /\ Depth(s.term) = 1
   /\ \E s \in S : s.term.k = "delay" /\ s.term.a.k = "byref"
   /\ \A s \in S : Linear(s.term) /\ Depth(s.term) <= 2
+  \* static dispatch: in a sort with concretely typed stacks, every adaptor method on every adaptor type
+  \* (ordered pairs along the receiver chain), every adaptor method on every source type, every source
+  \* type on its own (the consumers are called on it)
+  /\ \A k1 \in Unary \cup Binary : \A k2 \in Unary \cup Binary :
+       \E s \in S : StMax(s.fmt, s.ch) >= 2 /\ Depth(s.term) = 2 /\ s.term.k = k1 /\ s.term.a.k = k2
+  /\ \A k1 \in Unary \cup Binary : \A k2 \in LeafSrcM \cup Leaf0 :
+       \E s \in S : StMax(s.fmt, s.ch) >= 2 /\ Depth(s.term) = 1 /\ s.term.k = k1 /\ s.term.a.k = k2
+  /\ \A k \in LeafSrcM \cup Leaf0 : \E s \in S : StMax(s.fmt, s.ch) >= 1 /\ s.term.k = k
+  \* the far end of delay's parameter range, stacked both ways round
+  /\ \E s \in S : StMax(s.fmt, s.ch) >= 2 /\ s.term.k = "delay" /\ s.term.n = 1 /\ s.term.a.k = "delaymax" /\ s.term.a.m = 0
+  /\ \E s \in S : StMax(s.fmt, s.ch) >= 2 /\ s.term.k = "delaymax" /\ s.term.a.k = "delay"
+  /\ \E s \in S : StMax(s.fmt, s.ch) >= 2 /\ s.term.k = "delaymax" /\ s.term.a.k = "delaymax"
 
 ---------------------------------------------------------------------------
 (* stimuli: one execution per (term, sources, call sequence or consumer) *)
@@ -361,7 +407,8 @@ Execs(s) ==
       shallow == Depth(s.term) <= 1
       sel == (B + Cardinality(SrcsOf(s.term)) + Cardinality(KindsOf(s.term)) + s.ch) % 4
       after(byref) == IF byref THEN << EvNext, EvNext, EvIe >> ELSE resumes
-      cons(n0, c, tn, byref, j) == << reset >> \o Rep(EvNext, n0) \o << EvCollect(c, tn, 0, byref, j) >> \o after(byref)
+      consR(r, n0, c, tn, byref, j) == << r >> \o Rep(EvNext, n0) \o << EvCollect(c, tn, 0, byref, j) >> \o after(byref)
+      cons(n0, c, tn, byref, j) == consR(reset, n0, c, tn, byref, j)
       consCl(c, tn, k) == << reset, EvCollect(c, tn, k, FALSE, 0) >>
       seqCl == << reset >> \o Flat(Rep(<< EvNext, EvClone >>, B)) \o << EvIe >>
       ilCl == IF ~fin \/ brs # {} \/ s.ch < 2 THEN {}
@@ -377,7 +424,24 @@ Execs(s) ==
       seqIe == << reset, EvIe >> \o Flat(Rep(<< EvNext, EvIe >>, B)) \o << EvIe >>
       mutCons == << cons(1, "take", 0, TRUE, 0), cons(0, "take", B, TRUE, 0) >>
                  \o (IF fin THEN << cons(1, "ue", 0, TRUE, 0), cons(1, "il", 0, TRUE, 0) >> ELSE << >>)
-  IN {cons(0, "take", 2, FALSE, 0)}
+      \* the same scenario with its receiver chain statically typed d levels deep (nothing is cloned there)
+      dp == Depth(s.term)
+      resetS(d) == [ev |-> "reset", comp |-> "signal", cfg |-> [s EXCEPT !.st = d]]
+      stSeq(d) == << resetS(d), EvIe >> \o Rep(EvNext, B) \o << EvIe >>
+      stConsAll(d) == << consR(resetS(d), 0, "take", 2, FALSE, 0), consR(resetS(d), 1, "take", B, TRUE, 0) >>
+                      \o (IF fin THEN << consR(resetS(d), 0, "ue", 0, FALSE, 0), consR(resetS(d), 0, "il", 0, FALSE, 0),
+                                         consR(resetS(d), 1, "ue", 0, TRUE, 0), consR(resetS(d), 1, "il", 0, TRUE, 0) >> ELSE << >>)
+      stCons(d) == IF Quick THEN {stConsAll(d)[((sel + d + B) % Len(stConsAll(d))) + 1]}
+                   ELSE IF dp <= 1 /\ d = 1 THEN {stConsAll(d)[i] : i \in 1..Len(stConsAll(d))}   \* consumers on the concrete type
+                   ELSE {stConsAll(d)[((sel + d + B + i) % Len(stConsAll(d))) + 1] : i \in {0, 3}}
+      stDrop(d) == IF brs = {} THEN {} ELSE {<< resetS(d) >> \o Rep(EvNext, 1 + (sel % 2)) \o << EvDrop >> \o resumes}
+      stLift(d) == IF fin THEN {consR(resetS(d), 0, "lift", 0, FALSE, j) : j \in lifts} ELSE {}
+      static == IF StMax(s.fmt, s.ch) = 0 THEN {}
+                ELSE IF dp = 0 THEN {stSeq(1)} \cup stCons(1) \cup stDrop(1) \cup stLift(1)
+                ELSE IF dp = 1 THEN stCons(1) \cup {stSeq(2)} \cup stDrop(2) \cup stLift(2)
+                                    \cup (IF Quick /\ sel % 2 = 0 THEN {} ELSE stCons(2))
+                ELSE {stSeq(2)} \cup (IF Quick /\ sel % 2 = 1 THEN {} ELSE stCons(2))
+  IN {cons(0, "take", 2, FALSE, 0)} \cup static
      \cup (IF fin THEN {cons(0, "ue", 0, FALSE, 0), cons(0, "il", 0, FALSE, 0)} ELSE {})
      \cup (IF shallow THEN ilCl \cup itCl ELSE {})
      \cup (IF ~shallow THEN {seqNext}
